@@ -87,6 +87,7 @@ package store
 
 //@ func (*Store).getByHeight(s, ctx, height)
 //@   props C04
+//@   unreachable return3 : datastore read errors other than ErrNotFound are not modelled (store.spec)
 //@   requires hdrCacheOK() && dsHdrOK() && dsIdxOK() && idxCacheOK() && batchOK(s.pending) && ptrsOK(s) && s.heightIndex != nil
 //@   modifies $now, ghost:hcHas, ghost:hcVal, ghost:icHas, ghost:icVal
 //@   ensures [C04] coherent: hdrCacheOK() && idxCacheOK()
